@@ -277,3 +277,200 @@ def scenario_query_rules(repo, res):
             except Undecided as x:
                 raise AnalysisError("%s [%s]: %s" % (qn, label, x))
             res.check("OCC-SCENARIO", "%s [%s]: exactly the obstacles of that role and type" % (qn, label), bad is None, sc.mod, fn, "%s [%s] %s" % (qn, label, bad), "the role / type filter returns other obstacles than those with the requested role and type (or raises for an obstacle kind without a type)", qualname=qn)
+
+
+# --------------------------------------------------------------------------- OCC-PLACE: the placement function itself
+def _num(v, env):
+    """value of a numeric term under an assignment of its atoms (numpy / math functions interpreted)"""
+    import math
+
+    from ..strdom import Term
+
+    if isinstance(v, bool):
+        raise Undecided("boolean %r in a length" % v)
+    if isinstance(v, (int, float)):
+        return float(v)
+    if isinstance(v, Sym):
+        if v.name not in env:
+            raise Undecided("the length depends on %s" % v.name)
+        return env[v.name]
+    if isinstance(v, Term):
+        a = [_num(x, env) for x in v.args]
+        op = v.op
+        if op == "+":
+            return a[0] + a[1]
+        if op == "-":
+            return a[0] - a[1] if len(a) == 2 else -a[0]
+        if op == "neg":
+            return -a[0]
+        if op == "*":
+            return a[0] * a[1]
+        if op == "/":
+            return a[0] / a[1]
+        if op == "**":
+            return a[0] ** a[1]
+        if op in ("min", "max"):
+            return (min if op == "min" else max)(a)
+        if op == "abs":
+            return abs(a[0])
+        if op == "float":
+            return a[0]
+        raise Undecided("operation %s in a length" % op)
+    if isinstance(v, Ctor):
+        f = v.name.split(".")[-1]
+        a = [_num(x, env) for x in v.args.values()]
+        table = {"abs": abs, "absolute": abs, "fabs": abs, "cos": math.cos, "sin": math.sin, "tan": math.tan, "arctan": math.atan, "atan": math.atan, "sqrt": math.sqrt, "float64": float}
+        if f in table and len(a) == 1:
+            return table[f](a[0])
+        if f in ("minimum", "fmin", "min") and len(a) == 2:
+            return min(a)
+        if f in ("maximum", "fmax", "max") and len(a) == 2:
+            return max(a)
+        if f in ("arctan2", "atan2", "hypot") and len(a) == 2:
+            return {"arctan2": math.atan2, "atan2": math.atan2, "hypot": math.hypot}[f](*a)
+    raise Undecided("the length is %s" % show(v))
+
+
+def place_rules(repo, res, RULE="OCC-PLACE"):
+    """occupancy_shape_from_state(shape, state), evaluated.
+
+    exact state     the result is shape.rotate_translate_local(state.position, state.orientation), nothing else
+    uncertain state the result is a Rectangle centred at (the centre of) the position, oriented at the reference
+                    orientation (the given one / the middle of the interval), whose length and width — extracted as
+                    symbolic terms and compared numerically on sample assignments — are at least what enclosing the
+                    shape for every admissible position and orientation needs: extent of the position region measured
+                    in the reference frame (the region turned by minus the reference orientation about the origin)
+                    + extent of the shape turned by up to half the width of the orientation interval."""
+    import math
+    import random
+
+    from ..strdom import PyFunc, Term, linear_of
+
+    mod = repo.mod(SH)
+    fn = mod.functions.get("occupancy_shape_from_state")
+    if fn is None:
+        raise AnalysisError("occupancy_shape_from_state missing")
+    qn = "occupancy_shape_from_state"
+    classes = {k: repo.cls(SH, k) for k in ("Rectangle", "Polygon", "Circle")}
+
+    def region(kind, tag, log):
+        """model of a Rectangle / Polygon / Circle with symbolic extents; placements are recorded in log"""
+        f = {"center": Sym("%s.center" % tag, "num")}
+        if kind == "Circle":
+            f["radius"] = Sym("%s.radius" % tag, "num")
+        b = TupV([Sym("%s.%s" % (tag, n), "num") for n in ("min_x", "min_y", "max_x", "max_y")])
+        f["shapely_object"] = Obj(None, {"bounds": b}, closed=True, label="geometry of %s" % tag)
+
+        def place(a, k, tag=tag):
+            tr = k.get("translation", a[0] if a else None)
+            an = k.get("angle", a[1] if len(a) > 1 else None)
+            t2 = "%s placed" % tag
+            o = Obj(classes[kind], {"center": Sym("%s.center" % t2, "num"), "shapely_object": Obj(None, {"bounds": TupV([Sym("%s.%s" % (t2, n), "num") for n in ("min_x", "min_y", "max_x", "max_y")])}, closed=True)}, label=t2)
+            if kind == "Circle":
+                o.fields["radius"] = f["radius"]
+            log.append((tag, tr, an, o))
+            return o
+
+        f["rotate_translate_local"] = PyFunc(place, "rotate_translate_local")
+        return Obj(classes[kind], f, label=tag)
+
+    def run(label, skind, pkind, uncertain_o):
+        log = []
+        shape = region(skind, "shape", log)
+        pos = region(pkind, "position", log) if pkind else Sym("position", "num")
+        if uncertain_o:
+            s_, e_ = Sym("orientation.start", "num"), Sym("orientation.end", "num")
+            ori = Obj(None, {"start": s_, "end": e_, "length": Term("-", [e_, s_])}, closed=True, label="orientation interval")
+        else:
+            ori = Sym("orientation", "num")
+        state = Obj(None, {"position": pos, "orientation": ori, "is_uncertain_position": bool(pkind), "is_uncertain_orientation": uncertain_o}, closed=True, label="state")
+        ev = _ev(repo)
+        ev.pure_modules = {"math", "np", "numpy"}
+        bad = []
+        try:
+            r = ev.call_fn(FuncV(fn, mod=mod), [shape, state], {}, fn)
+            if not pkind and not uncertain_o:
+                hits = [x for x in log if x[0] == "shape"]
+                if not (len(hits) >= 1 and r is hits[-1][3] and hits[-1][1] is pos and hits[-1][2] is ori):
+                    bad.append("returns %s; the occupancy is the shape placed at (position, orientation) of the state" % show(r))
+                return bad, label
+            if not (isinstance(r, Ctor) and r.name == "Rectangle"):
+                raise Undecided("the enclosing occupancy is %s" % show(r))
+            a = r.args
+            length, width, centre, psi = a.get("length"), a.get("width"), a.get("center"), a.get("orientation")
+            want_c = pos.fields["center"] if pkind else pos
+            if centre is not want_c:
+                bad.append("the enclosing rectangle is centred at %s, the obstacle is at %s" % (show(centre), show(want_c)))
+            lp = linear_of(psi) if not isinstance(psi, Sym) else {psi.name: 1.0}
+            want_p = {"orientation.start": 0.5, "orientation.end": 0.5} if uncertain_o else {"orientation": 1.0}
+            if lp is None or {k: round(v, 9) for k, v in lp.items() if abs(v) > 1e-12} != want_p:
+                bad.append("the enclosing rectangle is oriented at %s, the reference orientation is %s" % (show(psi), "the middle of the interval" if uncertain_o else "the state's orientation"))
+            placed = None
+            if pkind in ("Rectangle", "Polygon"):
+                hits = [x for x in log if x[0] == "position"]
+                if not hits:
+                    bad.append("the position region is measured without being turned into the reference frame")
+                else:
+                    _t, tr, an, placed = hits[-1]
+                    la = linear_of(an)
+                    if la is None or {k: round(v, 9) for k, v in la.items() if abs(v) > 1e-12} != {k: -v for k, v in want_p.items()}:
+                        bad.append("the position region is turned by %s, not by minus the reference orientation" % show(an))
+                    zero = tr
+                    if isinstance(zero, Ctor) and zero.name in ("numpy.array", "numpy.asarray") and zero.args:
+                        zero = list(zero.args.values())[0]
+                    ok0 = (isinstance(zero, ListV) and len(zero.items) == 2 and all(x in (0, 0.0) for x in zero.items)) or (isinstance(tr, Ctor) and tr.name == "numpy.zeros" and list(tr.args.values()) == [2])
+                    if not ok0:
+                        bad.append("the position region is moved by %s while being turned" % show(tr))
+            if bad:
+                return bad, label
+            rnd = random.Random(20240)
+            for _i in range(40):
+                env = {}
+                lv, wv = rnd.uniform(0.5, 6), rnd.uniform(0.5, 6)
+                if skind == "Circle":
+                    lv = wv = 2 * rnd.uniform(0.3, 3)
+                    env["shape.radius"] = lv / 2
+                x0, y0 = rnd.uniform(-5, 5), rnd.uniform(-5, 5)
+                env.update({"shape.min_x": x0, "shape.max_x": x0 + lv, "shape.min_y": y0, "shape.max_y": y0 + wv})
+                ls = ws = 0.0
+                if pkind:
+                    ls, ws = rnd.uniform(0.2, 4), rnd.uniform(0.2, 4)
+                    if pkind == "Circle":
+                        ls = ws = 2 * rnd.uniform(0.2, 2)
+                        env["position.radius"] = ls / 2
+                    px, py = rnd.uniform(-5, 5), rnd.uniform(-5, 5)
+                    # the extents of the region as given differ from those in the reference frame: using the wrong ones shows
+                    env.update({"position.min_x": px, "position.max_x": px + ls * 0.37, "position.min_y": py, "position.max_y": py + ws * 0.41})
+                    env.update({"position placed.min_x": px, "position placed.max_x": px + ls, "position placed.min_y": py, "position placed.max_y": py + ws})
+                dpsi = 0.0
+                if uncertain_o:
+                    st_ = rnd.uniform(-3, 3)
+                    dpsi = rnd.uniform(0.01, math.pi / 2)
+                    env.update({"orientation.start": st_, "orientation.end": st_ + 2 * dpsi})
+                else:
+                    env["orientation"] = rnd.uniform(-3, 3)
+                dl, dw = min(dpsi, math.atan(wv / lv)), min(dpsi, math.atan(lv / wv))
+                need_l = ls + lv * math.cos(dl) + wv * math.sin(dl)
+                need_w = ws + wv * math.cos(dw) + lv * math.sin(dw)
+                got_l, got_w = _num(length, env), _num(width, env)
+                if got_l < need_l - 1e-9 or got_w < need_w - 1e-9:
+                    bad.append("for a %.2f x %.2f shape, a position region of %.2f x %.2f in the reference frame and orientations within +-%.3f the rectangle is %.3f x %.3f; enclosing every admissible placement needs %.3f x %.3f" % (lv, wv, ls, ws, dpsi, got_l, got_w, need_l, need_w))
+                    break
+        except _Raise as x:
+            bad.append("raises %s" % x.what)
+        return bad, label
+
+    cases = [("exact state", "Rectangle", None, False)]
+    for sk in ("Rectangle", "Polygon", "Circle"):
+        for pk in (None, "Rectangle", "Polygon", "Circle"):
+            for uo in (False, True):
+                if pk or uo:
+                    cases.append(("%s-shaped obstacle, %s, %s" % (sk.lower(), "position within a %s" % pk.lower() if pk else "exact position", "orientation within an interval" if uo else "exact orientation"), sk, pk, uo))
+    cases += [("exact state", "Polygon", None, False), ("exact state", "Circle", None, False)]
+    for label, sk, pk, uo in cases:
+        lab = label if label != "exact state" else "exact state, %s-shaped obstacle" % sk.lower()
+        try:
+            bad, _l = run(lab, sk, pk, uo)
+        except Undecided as x:
+            raise AnalysisError("%s [%s]: %s" % (qn, lab, x))
+        res.check(RULE, "%s [%s]" % (qn, lab), not bad, mod, fn, "%s [%s]: %s" % (qn, lab, "; ".join(bad[:2])), "the occupancy is not the shape placed at the state / does not enclose the shape for every admissible position and orientation", qualname=qn)
